@@ -280,6 +280,18 @@ MUTANTS = [
     ("c03-not-restored", "C03", TOKF, "cur_bar_capacity_remaining = state_dict.get(\"cur_bar_capacity_remaining\", cur_bar_capacity_total)", "cur_bar_capacity_remaining = cur_bar_capacity_total", {"ST1", "ST2"}),
     ("c03-save-before-close", "C03", TOKF, "        # Close bar and handle rest buffer\n        if (cur_time_bar > 0 or cur_bar_has_notes) and cur_bar_capacity_remaining > 0:\n            _apply_rest(cur_bar_capacity_remaining)\n\n        # Update state dictionary\n        state_dict[\"cur_time\"] = cur_time",
      "        # Update state dictionary\n        state_dict[\"cur_time\"] = cur_time\n        # Close bar and handle rest buffer\n        if (cur_time_bar > 0 or cur_bar_has_notes) and cur_bar_capacity_remaining > 0:\n            _apply_rest(cur_bar_capacity_remaining)\n", {"ST3"}),
+    ("c17-sort-skipped-when-time-ordered", "C17", ABS, "        self._messages.sort(key=lambda x: (x.time, -1 if x.channel is None else x.channel, x.message_type, x.note))",
+     "        if all(self._messages[i].time <= self._messages[i + 1].time for i in range(len(self._messages) - 1)):\n            return\n        self._messages.sort(key=lambda x: (x.time, -1 if x.channel is None else x.channel, x.message_type, x.note))", {"ORDER"}),
+    ("c18-scale-returns-unless-one", "C18", REL, "        if factor == 1:\n            return\n        if factor > 1:", "        if not factor == 1:\n            return\n        if factor > 1:", {"SCALE"}),
+    ("c06-no-removal", "C06", ABS, "                    message_pairings[i] = []\n", "                    pass\n", {"KEEP"}),
+    ("c01-sig-emitted-on-equal", "C01", TOKF, "                            switched = True\n", "                            pass\n", {"SIGEMIT"}),
+    ("c01-sig-halved-when-odd", "C01", TOKF, "cur_time_signature_numerator % 2 == 0 and", "cur_time_signature_numerator % 2 != 0 and", {"SIGEMIT"}),
+    ("c01-dispatch-shadowed", "C01", TOKF, "                if main_part == TokenisationPrefixes.PAD.value:\n                    continue\n                elif",
+     "                if main_part != TokenisationPrefixes.PAD.value:\n                    continue\n                elif", {"CHAIN"}),
+    ("c01-rest-value-unbound", "C01", TOKF, "                    rest_value = self.step_sizes[-1]\n", "                    pass\n", {"UNDEF"}),
+    ("c04-conversion-clock-starts-at-one", "C04", REL, "        current_point_in_time = 0\n        default_channel = None\n        cap_message_exists = True", "        current_point_in_time = 1\n        default_channel = None\n        cap_message_exists = True", {"CONV"}),
+    ("c04-invalidate-before-change", "C04", SEQ, "        self.rel.scale(factor, meta_sequence)\n        self.invalidate_abs()", "        self.invalidate_abs()\n        self.rel.scale(factor, meta_sequence)", {"TS-ORDER"}),
+    ("c19-get-info-keeps-state", "C19", TOKF, "        info_pos = []\n        info_time = []", "        self.last_info_request = tokens\n        info_pos = []\n        info_time = []", {"DERIVED"}),
     ("c03-close-partially-used-bar", "C03", TOKF, "        if (cur_time_bar > 0 or cur_bar_has_notes) and cur_bar_capacity_remaining > 0:\n            _apply_rest(cur_bar_capacity_remaining)",
      "        if cur_bar_has_notes and 0 < cur_bar_capacity_remaining < cur_bar_capacity_total:\n            _apply_rest(cur_bar_capacity_remaining)", {"CLOSE"}),
     ("c08-piece-object-as-condition", "C08", REL, "                if len(working_memory) == 0:\n                    if len(current_sequence._messages) > 0:",
